@@ -220,6 +220,7 @@ structure BC where
   isSync : Bool                          -- Type == Synchronization
   objects : Snap := []
   snapshots : List (Nat × Snap) := []    -- map binding name ↦ snapshot
+  metaIncl : List Nat := []              -- Metadata.IncludeSnapshots: set by the controller that made the context
 deriving Repr
 
 /-- Bindings of one hook after config loading: per type, (name, effective includeSnapshotsFrom). -/
@@ -238,6 +239,15 @@ def getInclude (hb : HookBindings) (t : BType) (b : Nat) : List Nat :=
   match l.find? (·.1 == b) with
   | some p => p.2
   | none => []
+
+/-- The include list `UpdateSnapshots` works with (after the repair): the one the context carries
+from its own binding (`Metadata.IncludeSnapshots`), the by-name lookup only when it carries none
+(several bindings of one type may share a name — every unnamed schedule binding is `schedule`). -/
+def inclOf (hb : HookBindings) (bc : BC) : List Nat :=
+  if bc.metaIncl.isEmpty then getInclude hb bc.btype bc.binding else bc.metaIncl
+
+/-- what `MapV1` renders: `snapshots` only when the context's own include list is not empty -/
+def visibleSnapshots (bc : BC) : List (Nat × Snap) := if bc.metaIncl.isEmpty then [] else bc.snapshots
 
 /-- map assignment on an association list keyed by binding name -/
 def mput {β : Type} : List (Nat × β) → Nat → β → List (Nat × β)
@@ -274,7 +284,7 @@ def fillSnapshots (read : Nat → Nat → Option Snap) : USt → List (Nat × Sn
     fillSnapshots read st acc ns
 
 def updateOne (hb : HookBindings) (read : Nat → Nat → Option Snap) (st : USt) (bc : BC) : USt × BC :=
-  let r := fillSnapshots read st [] (getInclude hb bc.btype bc.binding)
+  let r := fillSnapshots read st [] (inclOf hb bc)
   let bc' := { bc with snapshots := r.2 }
   if bc.btype = .kubernetes ∧ bc.isSync = true then
     let st2 := ensure read r.1 bc.binding
@@ -558,6 +568,7 @@ def concExact (ridOf : Key → Nat) (mc : MonCfg) (worlds : List World) (got : L
 structure ExecObs where
   binding : Nat
   btype : BType
+  decl : Nat          -- index of the emitting binding among the declared bindings of its type
   isSync : Bool
   objects : Snap
   snapshots : List (Nat × Snap)
@@ -591,7 +602,7 @@ def execExact (h : HookDecl) (reads : List (Nat × Option Snap)) (obs : List Exe
     (obs.map (·.snapshots)).flatten ++
       (obs.filter (fun o => o.btype == .kubernetes && o.isSync)).map (fun o => (o.binding, o.objects))
   obs.all (fun o =>
-    let want := match (h.ofType o.btype).find? (·.name == o.binding) with
+    let want := match (h.ofType o.btype)[o.decl]? with
       | some d => d.incl ++ (if d.group != 0 then groupNames h.kube d.group else [])
       | none => []
     let keys := o.snapshots.map (·.1)
